@@ -26,7 +26,7 @@ Local Open Scope nat_scope.
 Theorem C05_c16_kron_is_fkron : forall (A B : Tensor.arr) d1 d2, Tensor.shp A = [d1; d1] -> Tensor.shp B = [d2; d2] ->
   feq (d1 * d2) (KronBridge.zF (Kron.kron2 A B)) (fkron d2 (KronBridge.zF A) (KronBridge.zF B)).
 Proof. exact KronBridge.kron2_is_fkron. Qed.
-Theorem C05_c16_permute_is_sel : forall ord L, TensorTranspose.permute_list ord L = sel (Tensor.mkArr [] []) L ord.
+Theorem C05_c16_permute_is_sel : forall ord (L : list Tensor.arr), TensorTranspose.permute_list ord L = sel (Tensor.mkArr [] []) L ord.
 Proof. exact KronBridge.permute_list_is_sel. Qed.
 
 (* --- Kronecker algebra --- *)
